@@ -225,13 +225,19 @@ def run_junk(tier, acc):
                 else:
                     jb = junk
                 for pos in range(len(seq) + 1):
-                    for nl in (b'\n', b'\r\n'):
-                        lines = [p.encode(enc) for p in seq]
+                    for nl, hexmode in ((b'\n', 'plain'), (b'\r\n', 'plain'), (b'\n', 'first-hex'), (b'\n', 'all-hex')):
+                        # the valid lines themselves in plain or $HEX form: state left behind by a decoded $HEX line must not change how junk is treated
+                        lines = []
+                        for li, p_ in enumerate(seq):
+                            if hexmode == 'all-hex' or (hexmode == 'first-hex' and li == 0):
+                                lines.append(hexform(p_, enc).encode('ascii'))
+                            else:
+                                lines.append(p_.encode(enc))
                         lines.insert(pos, jb)
                         data = nl.join(lines) + nl
                         acc.evals += 1
                         acc.nontrivial += 1
-                        case = {'layer': 'junk', 'base': seq, 'encoding': enc, 'junk': jname, 'position': pos, 'file_hex': data.hex()}
+                        case = {'layer': 'junk', 'base': seq, 'encoding': enc, 'junk': jname, 'position': pos, 'valid_lines': hexmode, 'file_hex': data.hex()}
                         with open(path, 'wb') as f:
                             f.write(data)
                         try:
@@ -244,7 +250,7 @@ def run_junk(tier, acc):
                             acc.fail(case, 'junk line %s (%r) at line %d (%s): reader yields %r instead of %r' % (jname, jb, pos, enc, got, seq),
                                      ('junk-leak:' if extra else 'junk-loss:') + jname.split('_')[0])
                             continue
-                        if pos == 1 and nl == b'\n':
+                        if pos == 1 and nl == b'\n' and hexmode in ('plain', 'first-hex'):
                             t, out = train_bytes(wd, data, enc, False, 'junk')
                             acc.evals += 1
                             if t is None:
